@@ -164,7 +164,7 @@ def inst_fuse_tuple(rank, aspec, bspec):
         return views_equal(vb, vf)
 
     return Instance(f"fuse_slice_tuple[rank={rank},a={aspec},b={bspec}]", body, dict(rank=rank, a=aspec, b=bspec),
-                    unit="normalize_index+fuse_slice", cost=3)
+                    unit="normalize_index+fuse_slice", cost=3 * (4 if rank >= 3 else 1), wall_s=300 if rank < 3 else 1200)
 
 
 # ------------------------------------------------------------------ (c) _compose_slices
